@@ -65,6 +65,7 @@ pub(super) fn de_may_fail() -> bool { let on = unsafe { DE_MAY_FAIL }; on && kan
 pub(super) static mut SCRIPT_ON: bool = false;
 pub(super) static mut SCRIPT: [u8; 16] = [0; 16];
 pub(super) static mut SCRIPT_POS: usize = 0;
+pub(super) static mut FIXED_BOOLS: bool = false;
 pub(super) fn choose(bound: u8) -> u8 {
 	unsafe {
 		if SCRIPT_ON { let v = SCRIPT[SCRIPT_POS]; SCRIPT_POS += 1; assert!(v < bound); v }
@@ -75,12 +76,13 @@ pub(super) struct MockDe { pub depth: u8 }
 impl<'de> Deserializer<'de> for MockDe {
 	type Error = DeErr;
 	fn deserialize_any<V: DeVisitor<'de>>(self, v: V) -> Result<V::Value, DeErr> {
-		let k: u8 = choose(6);
+		// event 6 (a short string, for map keys) exists only in scripted mode, so the unscripted harnesses keep their domain
+		let k: u8 = choose(if unsafe { SCRIPT_ON } { 7 } else { 6 });
 		let may_fail = unsafe { DE_MAY_FAIL };
 		kani::assume(k != 0 || may_fail);
 		match k {
 			0 => Err(de_fail()),
-			1 => { let b: bool = kani::any(); de_log(E_BOOL, b as u64); v.visit_bool(b) }
+			1 => { let b: bool = if unsafe { SCRIPT_ON && FIXED_BOOLS } { true } else { kani::any() }; de_log(E_BOOL, b as u64); v.visit_bool(b) }
 			2 => { let x: u64 = kani::any(); de_log(E_U64, x); v.visit_u64(x) }
 			3 if self.depth > 0 => {
 				let n: u8 = choose(3);
@@ -92,6 +94,7 @@ impl<'de> Deserializer<'de> for MockDe {
 				de_log(E_MAP, n as u64);
 				v.visit_map(MockMap { remaining: n, depth: self.depth - 1 })
 			}
+			6 => { de_log(E_STR, 1); v.visit_str("k") }
 			_ => { de_log(E_UNIT, 0); v.visit_unit() }
 		}
 	}
